@@ -259,6 +259,8 @@ def gen_response(rng, big=False, exotic=False):
     r = rng.random()
     if r < 0.12:
         expect_mime = '-'
+        if rng.random() < 0.3:
+            fields.insert(0, b'X-Decoy: a' + nl() + rng.choice([b' ', b'\t', b'\t']) + b'Content-Type: decoy/type')
     else:
         if r < 0.27:
             v = rng.choice(BAD_CT).encode()
@@ -275,10 +277,19 @@ def gen_response(rng, big=False, exotic=False):
         ctname = rng.choice([b'Content-Type', b'Content-Type', b'content-type', b'CONTENT-TYPE', b'cOnTeNt-tYpE'])
         sep = rng.choice([b': ', b': ', b':', b':   ', b' : ', b':\t'])
         trail = rng.choice([b'', b'', b' ', b'\t '])
+        fr = rng.random()
+        if fr < 0.12:
+            # the whole value on a continuation line (obs-fold with SP or HTAB): still this field's value
+            sep = b':' + rng.choice([b'', b' ']) + nl() + rng.choice([b' ', b'\t', b'\t', b' \t', b'\t\t'])
         entry = ctname + sep + v + trail
         pos = rng.choice([0, len(fields), rng.randrange(len(fields) + 1)])
         # a folded line must stay attached to its field: insert between entries only
         fields.insert(pos, entry)
+        if 0.12 <= fr < 0.24:
+            # an EARLIER field whose SP/HTAB-folded continuation reads like a Content-Type field: it is part of
+            # that field's value, the response's Content-Type is the real one
+            fields.insert(0, b'X-Decoy: a' + nl() + rng.choice([b' ', b'\t', b'\t', b'\t ']) +
+                          b'Content-Type: ' + rng.choice([b'text/plain', b'decoy/type']))
         if rng.random() < 0.15:
             # duplicate Content-Type later on: the first one counts
             fields.append(b'Content-Type: ' + rng.choice(MIMES + BAD_CT).encode())
@@ -333,9 +344,20 @@ def gen_response(rng, big=False, exotic=False):
     return {'header': header, 'body': body, 'status': expect_status, 'mime': expect_mime, 'linesep': linesep}
 
 
+def gen_long_path(rng):
+    """path + query of 1000-5000 characters (around and beyond 1024), with and without places to break at"""
+    n = rng.choice([1000, 1015, 1023, 1024, 1025, 1100, 2050, 5000])
+    seg = rng.choice(['x', 'ab-', 'seg/', 'a%20b/', 'w+'])
+    p = '/long/' + (seg * (n // len(seg) + 1))[:n // 2]
+    q = '?' + '&'.join('k%d=%s' % (i, 'v' * rng.choice([3, 40])) for i in range(200))
+    return (p + q)[:n] if rng.random() < 0.7 else (p * 2)[:n]
+
+
 def gen_http_session(rng, k, cfg, big=False, exotic=False):
     host = rng.choice(['example.com', 'a.example', 'h.test:8080', 'xn--bcher-kva.example'])
     path = rng.choice(['/', '/a', '/a/b.html?x=1&y=2', '/%7Euser/', '/p%20q', '/long/' + 'x' * rng.choice([10, 300])])
+    if rng.random() < 0.12:
+        path = gen_long_path(rng)
     url = 'http://' + host + path
     ip = rng.choice(['1.2.3.4', '10.0.0.1', '2001:db8::1', '::1'])
     method = rng.choice(['GET', 'GET', 'GET', 'POST', 'HEAD'])
@@ -1172,7 +1194,8 @@ def oracle_c07(obs, by_file, directory_files, expectations):
     # "current archive files": when not appending, the files this life (re)started; every line of the index must
     # describe a response record of those -- nothing of an earlier life on the same prefix may survive
     current_ids = None
-    if not cfg['appending']:
+    if not cfg['appending'] and all(recs for (start, recs) in by_file.values()):
+        # (a file that could not be read at all is reported as such, not as a stale index)
         current_ids = {r.id for (start, recs) in by_file.values() for r in recs if r.type == b'response'}
     for ln in lines:
         if ln == CDX_HEADER.encode():
